@@ -63,6 +63,9 @@ def run(ctx, rep):
     rep.rule("R5.7", "a supplied maxfev/maxiter/history_size is not overwritten by the completion of the options (see C19 R19.8)")
     from . import c19
     c19.r198(ctx, Renamed(rep, to="R5.7"), ctx.func(c19.OPT_FUNC), ctx.func(c19.CST_FUNC))
+    rep.rule("R5.8", "the recorded violation belongs to the recorded point: user code gets a private copy of the point (see C06 R6.4)")
+    from . import c06
+    c06.r64(ctx, Renamed(rep, to="R5.8"), rule="R5.8")
     c19.r199(ctx, rep, ctx.func(T.MINIMIZE), c19.enum_tables(ctx), rule="R5.7")
 
 
